@@ -32,8 +32,8 @@ func init() {
 			"non-trivial = at least two populated fields and the round trip completed; distinct by the canonical field listing. " +
 			"direction 2: RDNSequence DER from the monitor's own writer (0-6 RDNs, 1-3 attributes each, known/unknown/repeated types, Printable/UTF8/IA5/T61/BMP/Numeric strings, " +
 			"a few INTEGER/OCTET STRING values, sorted and unsorted SETs) -> Unmarshal -> Fill -> ToRDNSequence -> Marshal; non-trivial = parsed and at least one attribute; distinct by input bytes",
-		MinNontrivial:         6000,
-		MinNontrivialThorough: 300000,
+		MinNontrivial:         10000,
+		MinNontrivialThorough: 400000,
 		Shards:                16,
 		Assumptions: []string{
 			"value multisets are compared per field: the order of values inside one multi-valued RDN is not part of the statement (DER SET OF ordering)",
